@@ -33,6 +33,8 @@ func show(v []int64) string {
 func main() {
 	hvSeed, hvCount, wo, wi, _, hvDone := hv.Args()
 	defer hvDone()
+	raggedCases := 0
+	defer func() { hv.Stats(map[string]int{"project_matrices_stored_with_short_early_rows": raggedCases}) }()
 	rng := rand.New(rand.NewSource(hvSeed))
 	b := &leaves.BurndownAnalysis{}
 	for it := 0; it < hvCount; it++ {
@@ -98,7 +100,25 @@ func main() {
 		}
 		tickNs := []int64{3600e9, 24 * 3600e9, 17 * 60e9}[rng.Intn(3)]
 		samp, gran := 1+rng.Intn(30), 1+rng.Intn(30)
-		res := leaves.VerifNewBurndownResult(m, ph, pm, dict, tickNs, samp, gran)
+		// the sparse shape real results have: early rows are shorter (the bands that did not exist yet are not stored).
+		// Only trailing zeros are dropped, and never from the last row, so the matrix means the same; every expectation
+		// below is stated on the full rectangular `m`
+		stored := m
+		if rng.Intn(3) == 0 && rows > 1 {
+			stored = make([][]int64, rows)
+			for i := range m {
+				keep := cols
+				if i < rows-1 {
+					keep = 1 + i*cols/rows
+					for j := keep; j < cols; j++ {
+						m[i][j] = 0
+					}
+				}
+				stored[i] = append([]int64{}, m[i][:keep]...)
+			}
+			raggedCases++
+		}
+		res := leaves.VerifNewBurndownResult(stored, ph, pm, dict, tickNs, samp, gran)
 		res.FileHistories = fh
 		res.FileOwnership = fo
 		var buf bytes.Buffer
